@@ -1,31 +1,31 @@
-// Package c05 checks property C05: the rate limiter never admits faster than configured, refusals cost nothing.
-package c05
+// Package rlmodel is the reference rate limiter used by the C05 and composition checks.
+package rlmodel
 
 import "fmt"
 
 // Reference model, written from the property text only: permits are assigned greedily to the earliest slots (smooth) or
 // periods (bursty) that respect the rate and the order of requests; a call waits for its last permit; a call whose wait
 // would exceed maxWait is refused and changes nothing. Times are int64 nanoseconds since the limiter was built.
-type model interface {
+type Model interface {
 	// acquire returns the wait, or -1 when refused. maxWait == -1 means unbounded.
-	acquire(t int64, n int, maxWait int64) int64
-	clone() model
+	Acquire(t int64, n int, maxWait int64) int64
+	Clone() Model
 	String() string
 }
 
-type smoothModel struct {
-	interval int64
+type Smooth struct {
+	Interval int64
 	next     int64 // index of the first unassigned slot
 }
 
-func (m *smoothModel) acquire(t int64, n int, maxWait int64) int64 {
-	cur := t / m.interval
+func (m *Smooth) Acquire(t int64, n int, maxWait int64) int64 {
+	cur := t / m.Interval
 	first := m.next
 	if cur > first {
 		first = cur
 	}
 	last := first + int64(n) - 1
-	wait := last*m.interval - t
+	wait := last*m.Interval - t
 	if wait < 0 {
 		wait = 0
 	}
@@ -35,32 +35,32 @@ func (m *smoothModel) acquire(t int64, n int, maxWait int64) int64 {
 	m.next = last + 1
 	return wait
 }
-func (m *smoothModel) clone() model   { c := *m; return &c }
-func (m *smoothModel) String() string { return fmt.Sprintf("smooth{next=%d}", m.next) }
+func (m *Smooth) Clone() Model   { c := *m; return &c }
+func (m *Smooth) String() string { return fmt.Sprintf("smooth{next=%d}", m.next) }
 
-type burstyModel struct {
-	period int64
-	max    int
+type Bursty struct {
+	Period int64
+	Max    int
 	used   map[int64]int // period index -> permits assigned in it
 	front  int64         // period of the most recently assigned permit: later requests never get an earlier one
 }
 
-func (m *burstyModel) acquire(t int64, n int, maxWait int64) int64 {
-	cur := t / m.period
+func (m *Bursty) Acquire(t int64, n int, maxWait int64) int64 {
+	cur := t / m.Period
 	q := m.front
 	if cur > q {
 		q = cur
 	}
 	tmp := map[int64]int{}
 	for i := 0; i < n; i++ {
-		for m.used[q]+tmp[q] >= m.max {
+		for m.used[q]+tmp[q] >= m.Max {
 			q++
 		}
 		tmp[q]++
 	}
 	var wait int64
 	if q > cur {
-		wait = q*m.period - t
+		wait = q*m.Period - t
 	}
 	if maxWait != -1 && wait > maxWait {
 		return -1
@@ -77,13 +77,18 @@ func (m *burstyModel) acquire(t int64, n int, maxWait int64) int64 {
 	}
 	return wait
 }
-func (m *burstyModel) clone() model {
-	c := &burstyModel{period: m.period, max: m.max, used: map[int64]int{}, front: m.front}
+func (m *Bursty) Clone() Model {
+	c := &Bursty{Period: m.Period, Max: m.Max, used: map[int64]int{}, front: m.front}
 	for k, v := range m.used {
 		c.used[k] = v
 	}
 	return c
 }
-func (m *burstyModel) String() string {
+func (m *Bursty) String() string {
 	return fmt.Sprintf("bursty{front=%d used=%v}", m.front, m.used)
+}
+
+func NewSmooth(interval int64) *Smooth { return &Smooth{Interval: interval} }
+func NewBursty(max int, period int64) *Bursty {
+	return &Bursty{Period: period, Max: max, used: map[int64]int{}}
 }
